@@ -66,11 +66,11 @@ def run(tier):
     C = vp.Check("C03", tier, "model_checking")
     C.cov["rule"] = ("every complete program of <= MaxTok tokens over the theme's alphabet x every environment of the theme; "
                      "non-trivial = distinct (program, environment) whose reference result is specified (ok or error)")
-    mt = {"flow": 4, "scope": 4, "capture": 4, "global": 5, "nest": 6} if tier == "quick" else {"flow": 5, "scope": 5, "capture": 5, "global": 6, "nest": 7}
+    mt = {"flow": 4, "scope": 4, "capture": 4, "global": 5, "nest": 6, "gcap": 6} if tier == "quick" else {"flow": 5, "scope": 5, "capture": 5, "global": 6, "nest": 7, "gcap": 7}
     n = 0
-    for theme in ("flow", "scope", "capture", "global", "nest"):
+    for theme in ("flow", "scope", "capture", "global", "nest", "gcap"):
         # (the assignment and nesting themes repeat constructs whose VM steps the other three themes already validate: exact text only)
-        n += render_check.run_theme(C, theme, mt[theme], traced=(tier == "quick" and theme not in ("global", "nest")), also_api=(theme == "scope"))
+        n += render_check.run_theme(C, theme, mt[theme], traced=(tier == "quick" and theme not in ("global", "nest", "gcap")), also_api=(theme == "scope"))
     if tier == "thorough":
         for theme in ("flow", "scope", "capture"):
             n += render_check.run_theme(C, theme, 9, traced=True, simulate=3000, depth=14, workers=1, tag="render-sim-" + theme)
